@@ -305,17 +305,17 @@ func (s stepReduced) Communities() [][]graph.Node {
 
 // pstepCase is printed by ProfileStep.tla.
 type pstepCase struct {
-	K      string           `json:"k"`
-	Kind   string           `json:"kind"`
-	Log    bool             `json:"log"`
-	Lo     [2]int64         `json:"lo"`
-	Hi     [2]int64         `json:"hi"`
-	Grain  [2]int64         `json:"grain"`
-	Bps    [][2]int64       `json:"bps"`
-	Vals   []int64          `json:"vals"`
-	Expect string           `json:"expect"`
-	Win    [][2][2]int64    `json:"win"`
-	Raw    json.RawMessage  `json:"-"`
+	K      string          `json:"k"`
+	Kind   string          `json:"kind"`
+	Log    bool            `json:"log"`
+	Lo     [2]int64        `json:"lo"`
+	Hi     [2]int64        `json:"hi"`
+	Grain  [2]int64        `json:"grain"`
+	Bps    [][2]int64      `json:"bps"`
+	Vals   []int64         `json:"vals"`
+	Expect string          `json:"expect"`
+	Win    [][2][2]int64   `json:"win"`
+	Raw    json.RawMessage `json:"-"`
 }
 
 func ratF(r [2]int64) float64 { return float64(r[0]) / float64(r[1]) } // dyadic with small terms: exact
